@@ -109,50 +109,25 @@ func (e *Encoder) WriteData(data interface{}) (int, error) {
 
 	switch v.Kind() {
 	case reflect.Bool:
-		value := data.(bool)
-		return e.writeBoolean(value)
+		return e.writeBoolean(v.Bool())
 	case reflect.String:
-		value := data.(string)
-		return e.writeString(value)
-	case reflect.Int8: // as int
-		value := int32(data.(int8))
-		return e.writeInt(value)
-	case reflect.Int16: // as int
-		value := int32(data.(int16))
-		return e.writeInt(value)
-	case reflect.Int32: // as int
-		value := data.(int32)
-		return e.writeInt(value)
+		return e.writeString(v.String())
+	case reflect.Int8, reflect.Int16, reflect.Int32: // as int
+		return e.writeInt(int32(v.Int()))
 	case reflect.Int: // as int
-		i := data.(int)
+		i := v.Int()
 		if i < math.MinInt32 || i > math.MaxInt32 {
 			return 0, newCodecError("WriteData", "int value %d does not fit the 32-bit hessian int", i)
 		}
 		return e.writeInt(int32(i))
-	case reflect.Uint8: // as int
-		value := int32(data.(uint8))
-		return e.writeInt(value)
-	case reflect.Uint16: // as int
-		value := int32(data.(uint16))
-		return e.writeInt(value)
+	case reflect.Uint8, reflect.Uint16: // as int
+		return e.writeInt(int32(v.Uint()))
 	case reflect.Int64: // as long
-		value := data.(int64)
-		return e.writeLong(value)
-	case reflect.Uint: // as long
-		value := int64(data.(uint))
-		return e.writeLong(value)
-	case reflect.Uint32: // as long
-		value := int64(data.(uint32))
-		return e.writeLong(value)
-	case reflect.Uint64: // as long
-		value := int64(data.(uint64))
-		return e.writeLong(value)
-	case reflect.Float32:
-		value := data.(float32)
-		return e.writeDouble(float64(value))
-	case reflect.Float64:
-		value := data.(float64)
-		return e.writeDouble(value)
+		return e.writeLong(v.Int())
+	case reflect.Uint, reflect.Uint32, reflect.Uint64: // as long
+		return e.writeLong(int64(v.Uint()))
+	case reflect.Float32, reflect.Float64:
+		return e.writeDouble(v.Float())
 	case reflect.Slice, reflect.Array:
 		return e.writeList(source)
 	case reflect.Map:
